@@ -1,14 +1,14 @@
 #!/bin/sh
 # try_seed_wt.sh <tree> <Cxx> [tier]: run a check against ANOTHER source tree (a scratch worktree holding a seeded
-# change) without touching /repo: VC2_REPO points the harness, the translator and the real code at that tree.
-# The property's evidence file and the generated Lean files are put back afterwards.
+# change) without touching /repo: VC2_REPO points the harness, the translator and the real code at that tree,
+# VC2_LEAN_DIR at a private copy of the Lean project (generated files + build output) and VC2_OUT_DIR at a private
+# evidence/replay directory, so that several of these runs - and ordinary checks - can go on at once and /verif's
+# own evidence is untouched.  The replay of a violation is kept as replays/seeded-<tree name>-<Cxx>.json.
 T="$(readlink -f "$1")"; ID="$2"; TIER="${3:-quick}"
 V="$(cd "$(dirname "$0")/.." && pwd)"
 S="$(mktemp -d)"
-[ -f "$V/evidence/$ID.json" ] && cp "$V/evidence/$ID.json" "$S/ev.json"
-cd "$V" && VC2_REPO="$T" timeout 1500 ./check "$ID" --tier "$TIER" 2>"$S/err.log" | tail -3
-if [ -f "$S/ev.json" ]; then cp "$S/ev.json" "$V/evidence/$ID.json"; else rm -f "$V/evidence/$ID.json"; fi
-git -C "$V" checkout -- lean/VC2/Gen 2>/dev/null
+cp -a "$V/lean" "$S/lean"
+cd "$V" && VC2_REPO="$T" VC2_LEAN_DIR="$S/lean" VC2_OUT_DIR="$S" timeout 1500 ./check "$ID" --tier "$TIER" 2>"$S/err.log" | tail -3
 grep -c BROKEN "$S/err.log" | sed 's/^/broken obligations: /'
 grep BROKEN "$S/err.log" | cut -c1-300 | head -5
 rm -rf "$S"
